@@ -189,6 +189,46 @@ func (p *Prog) Flatten(anchors map[string]bool) ([]string, error) {
 	for f := range allInstances(p) {
 		funcs = append(funcs, f)
 	}
+	// `go helper(args)` with a helper that is not an anchor: the goroutine's
+	// body moves back into a literal of the function that starts it
+	for _, f := range append([]*ssa.Function(nil), funcs...) {
+		if !anchors[p.AnchorName(f)] && f.Parent() == nil {
+			continue
+		}
+		for again := true; again; {
+			again = false
+			for _, b := range f.Blocks {
+				for _, in := range b.Instrs {
+					g, ok := in.(*ssa.Go)
+					if !ok || again {
+						continue
+					}
+					callee := g.Call.StaticCallee()
+					if callee == nil || callee.Parent() != nil || !inMod(callee) || recursive[callee] || anchors[p.AnchorName(callee)] || callee.Blocks == nil {
+						continue
+					}
+					if _, isLit := g.Call.Value.(*ssa.MakeClosure); isLit {
+						continue
+					}
+					w := f.RehomeGo(g)
+					if w == nil {
+						continue
+					}
+					f.Rebuild()
+					if err := f.SanityCheck(); err != nil {
+						return log, fmt.Errorf("flatten: %v", err)
+					}
+					if err := w.SanityCheck(); err != nil {
+						return log, fmt.Errorf("flatten: %v", err)
+					}
+					p.srcFuncs = append(p.srcFuncs, w)
+					funcs = append(funcs, w)
+					log = append(log, fmt.Sprintf("%s <- go %s", p.FuncName(f), p.AnchorName(callee)))
+					again = true
+				}
+			}
+		}
+	}
 	// a pass may enable further inlining in functions visited earlier (a
 	// literal returned by an inlined helper becomes callable by name): repeat
 	for pass, changed := 0, true; changed && pass < 6; pass++ {
